@@ -21,12 +21,16 @@ theorem default_converted_by_type : table.defaultViaIn = true := by decide
 section
 variable {F : Type} (fo : FloatOps F)
 
-/-- **factory_mirror.** For every well-formed description `d` (any tree of embedded devices, any
-    services / state variables / actions / icons; names distinct per scope, declared texts denoting
-    values, related variables declared, SCPD URLs resolving to distinct documents), served at `base`,
-    in strict or non-strict mode: the factory, run on the XML trees of `d`, returns exactly `mirror d`
-    — the same devices, services, actions, arguments bound by name, metadata and resolved URLs — or
-    the same refusal. (`fuel` only bounds the recursion depth of the model.) -/
+/-- **factory_mirror.** For every well-formed description `d` — any tree of embedded devices (any
+    depth and width), any services / state variables / actions / icons, under only the uniqueness
+    UPnP itself demands: service ids unique within a device, UDNs unique among sibling devices,
+    variable / action names unique within a service (`DeviceSpec.wf`; device and service types are
+    URNs, i.e. contain no `#`, and may REPEAT among siblings; declared texts denote values, related
+    variables are declared), SCPD URLs inside the URL grammar with one content per URL (`urlsOk`) —
+    served at `base`, in strict or non-strict mode: the factory, run on the XML trees of `d`, returns
+    exactly `mirror d` — the same devices, services, actions, arguments bound by name, metadata and
+    resolved URLs, one model object per described object — or the same refusal.
+    (`fuel` only bounds the recursion depth of the model.) -/
 theorem factory_mirror (d : DeviceSpec) (base : Str) (nonStrict : Bool) (fuel : Nat)
     (hw : d.wf fo table base = true) (hu : urlsOk base d = true) (hf : d.depth ≤ fuel) :
     asyncCreateDevice fo table (serve base d) nonStrict base fuel = mirror fo table nonStrict base d := by
@@ -231,6 +235,11 @@ def dev : DeviceSpec :=
   .mk (info '0') [{ width := some ['4','8'], url := some ['/','i','c','o','n','.','p','n','g'] }]
     [svc '1' (.scpd good), svc '2' (.foreign (.other []) (.other []))]
     [.mk (info '1') [] [svc '3' (.scpd { vars := none, actions := good.actions }), svc '4' .unparsable] []]
+/-- two services of one type (ids `1`, `2`) and two embedded siblings of one type (UDNs `u1`, `u2`) -/
+def twins : DeviceSpec :=
+  .mk (info '0') []
+    [{ svc '1' (.scpd good) with serviceType := some ['t'] }, { svc '2' (.scpd good) with serviceType := some ['t'] }]
+    [.mk (some ['e'] :: (info '1').tail) [] [] [], .mk (some ['e'] :: (info '2').tail) [] [] []]
 end Example
 
 open Example in
@@ -255,5 +264,16 @@ example :
               [[⟨['m'], ['i','n'], ['M','o','d','e'], ['s','t','r','i','n','g']⟩, ⟨['v'], ['o','u','t'], ['V','o','l','u','m','e'], ['u','i','2']⟩]]))
      | .error _ => false) = true := by
   refine ⟨by decide, by decide, by decide, by decide, by decide⟩
+
+open Example in
+/-- repeated types are inside the domain: the description with twin services and twin embedded
+    devices is well-formed and its mirror has all three devices and both services -/
+example :
+    twins.wf fo table base = true ∧ urlsOk base twins = true ∧
+    (match mirror fo table false base twins with
+     | .ok m => (flatten 0 m).map (fun r => (r.depth, (r.info.getD 9 none), r.services.map (·.serviceId)))
+          == [(0, some ['u','0'], [['1'], ['2']]), (1, some ['u','1'], []), (1, some ['u','2'], [])]
+     | .error _ => false) = true := by
+  refine ⟨by decide, by decide, by decide⟩
 
 end Upnp.C05
